@@ -71,6 +71,15 @@ func genC28(t *rapid.T) c28Case {
 		if seg == "." || seg == ".." {
 			seg = "dot"
 		}
+		// percent-escapes and non-ASCII segments are valid in a resource URL
+		switch rapid.IntRange(0, 9).Draw(t, "segexotic") {
+		case 0:
+			seg = seg + "%20" + "a"
+		case 1:
+			seg = "donn%C3%A9es"
+		case 2:
+			seg = "100%25" + seg
+		}
 		c.Path += "/" + seg
 	}
 	if rapid.IntRange(0, 7).Draw(t, "hostile?") == 0 {
